@@ -569,9 +569,15 @@ Proof.
   - apply IH; [exact Hl'|]. intros Hin. apply Hx. right. exact Hin.
 Qed.
 
-Lemma plan_step d (t1 : traveller) pend (di : day_input) c :
+(** stated with the clause of the discipline itself - every proposal accepted for this plan has positive
+    clearance dates - instead of a property of all the predictor's answers *)
+Lemma plan_step_gen d (t1 : traveller) pend (di : day_input) c :
   J mx (d * SecondsInDay) t1 -> 1 <= d -> Links d (t_book t1) pend -> PhM d t1 pend ->
-  day_ok tp di -> di_plan di = Some c ->
+  th_params (di_params di) = tp -> choice_ok tp c ->
+  (forall pp, propose (t_book t1) (c_day c * SecondsInDay)
+                (c_day c * SecondsInDay + c_len c * SecondsInDay + (SecondsInDay - 1)) (c_dist c)
+                (bot_travelled (dist (c_from c) (c_to c)) (dist (c_to c) (c_from c)))
+                (d * SecondsInDay) (di_pred di) mx = inl pp -> Pos (pp_entries pp)) ->
   In (c_day c) (prepare_days (t_book t1) d (c_len c) (pMaxDays (di_params di))) ->
   let now := d * SecondsInDay in
   let e2 := plan_ev now c (di_pred di) in
@@ -579,7 +585,7 @@ Lemma plan_step d (t1 : traveller) pend (di : day_input) c :
   let pend2 := if plan_okb t1 e2 then pend ++ [out_journey c] else pend in
   conforms mx now t1 e2 /\ J mx now t2 /\ Links d (t_book t2) pend2 /\ PhM d t2 pend2.
 Proof.
-  intros HJ Hd HL HP (Hp & Hpred & Hdraw & Hc) Ec Hin. rewrite Ec in Hc.
+  intros HJ Hd HL HP Hp Hc Hposc Hin.
   destruct Hc as (Cdraw & Clen & Cfi & Ctl & Croute & Cdd & Ctmax). cbn zeta.
   pose proof HJ as [HI HPos HD HO HC].
   set (now := d * SecondsInDay) in *.
@@ -597,7 +603,7 @@ Proof.
   assert (Hconf : conforms mx now t1 (EPlan ts te (c_dist c) tr now (di_pred di))).
   { split; [cbn [ev_time]; lia|]. split; [exact Hnow1|]. split; [exact Ctmax|]. split; [exact Cdd|].
     split.
-    - intros pp Epp. eapply sane_predictor_keeps_clearances_positive; eauto.
+    - intros pp Epp. exact (Hposc pp Epp).
     - intros Hm. destruct HP as [HH|HA].
       + destruct HH as (_ & _ & _ & Hk & Hns & _). split; [lia|].
         intros i Hi [Hne Hlt]. specialize (Hns Hm i Hi Hne Hlt).
@@ -709,6 +715,23 @@ Proof.
            unfold out_journey in Hjout. cbn [j_out] in Hjout. discriminate.
 Qed.
 
+
+Lemma plan_step d (t1 : traveller) pend (di : day_input) c :
+  J mx (d * SecondsInDay) t1 -> 1 <= d -> Links d (t_book t1) pend -> PhM d t1 pend ->
+  day_ok tp di -> di_plan di = Some c ->
+  In (c_day c) (prepare_days (t_book t1) d (c_len c) (pMaxDays (di_params di))) ->
+  let now := d * SecondsInDay in
+  let e2 := plan_ev now c (di_pred di) in
+  let t2 := apply_ev mx t1 e2 in
+  let pend2 := if plan_okb t1 e2 then pend ++ [out_journey c] else pend in
+  conforms mx now t1 e2 /\ J mx now t2 /\ Links d (t_book t2) pend2 /\ PhM d t2 pend2.
+Proof.
+  intros HJ Hd HL HP (Hp & Hpred & Hdraw & Hc) Ec Hin. rewrite Ec in Hc.
+  apply plan_step_gen; try assumption.
+  intros pp Epp. pose proof HJ as [HI HPos _ _ _]. destruct Hc as (_ & _ & _ & _ & _ & _ & Ctmax).
+  eapply sane_predictor_keeps_clearances_positive; [exact HI|exact HPos| |exact Ctmax|exact Hpred|exact Epp].
+  unfold SecondsInDay. lia.
+Qed.
 
 (** the time of the last event of a list of events (the clock the next event is measured against) *)
 Definition last_time (clk : Z) (evs : list ev) : Z := fold_left (fun _ e => ev_time e) evs clk.
